@@ -77,7 +77,14 @@ def gen_bracket_program(rnd):
     for _ in range(rnd.randrange(4, 12)):
         e = ("bin", "&", ("grp", expr(rnd.randrange(2, 6))), apm.num(0o177777))
         r = rnd.random()
-        if r < 0.6:
+        if r < 0.2:
+            # an implicit word list that begins with a name and goes on with an operator that cannot start a statement
+            op = rnd.choice(["*", "/", "<<", ">>", "&", "|", "!", "*"])
+            rhs = apm.num(rnd.randrange(1, 5))
+            stmts.append(apm.wordlist(("bin", "&", ("bin", op, ("sym", rnd.choice(sorted(consts))), rhs), apm.num(0o177777)) if op in ("<<", "*") else
+                                      ("bin", op, ("sym", rnd.choice(sorted(consts))), rhs), apm.num(rnd.randrange(100))))
+            stmts[-1].name_led = True
+        elif r < 0.6:
             stmts.append(apm.data(".word", e))
         elif r < 0.8:
             stmts.append(apm.insn("mov", ("imm", e), ("reg", rnd.randrange(6))))
@@ -125,6 +132,27 @@ def run_shard(spec):
             if i < 1:
                 st = apm.Style.random(random.Random(case["style_seed"]), 0.7)
                 res["samples"].append({"canonical": apm.r_file(prog.files[0]).splitlines()[:8], "respelled": apm.r_file(prog.files[0], st).splitlines()[:8]})
+        # registers written as '%expr' over constants that are private to each file (same names, other values), against 'rN'
+        for i in range(6 if spec["tier"] == "quick" else 60):
+            nf = rnd.choice([1, 2, 3])
+            fa, fb = [], []
+            for f in range(nf):
+                v = rnd.randrange(0, 4)
+                la = [f"rq = {v}", f"rw = {rnd.randrange(0, 3)}"] + ([".link 2000"] if f == 0 else [])
+                lb = list(la)
+                w = int(la[1].split("=")[1])
+                for _ in range(rnd.randrange(2, 7)):
+                    n1, n2 = rnd.randrange(v, v + 4), rnd.randrange(w, w + 4)
+                    form = rnd.choice(["mov {a}, {b}", "clr ({a})+", "add -({a}), @{b}", "cmp 2({a}), ({b})", "sob {a}, .", "jsr {a}, ({b})", "mul ({b})+, {a}"])
+                    la.append("\t" + form.format(a=f"r{n1}", b=f"r{n2}"))
+                    lb.append("\t" + form.format(a=rnd.choice([f"%rq+{n1 - v}", f"%{n1 - v}+rq", f"%<rq + {n1 - v}>"]), b=rnd.choice([f"%rw+{n2 - w}", f"%{n2}", f"r{n2}"])))
+                fa.append([f"f{f}.mac", "\n".join(la) + "\n"])
+                fb.append([f"f{f}.mac", "\n".join(lb) + "\n"])
+            case = {"kind": "pair", "a": fa, "b": fb, "style_seed": 0}
+            vs, ndiff = run_case(case, cnt, root)
+            res["violations"].extend(vs)
+            res["evaluations"] += 1
+            res["distinct"].append(f"pair|{spec['part']}|{i}")
         repo = os.environ.get("VERIF_REPO", "/repo")
         dirs = sorted(glob.glob(os.path.join(repo, "tests", "practice", "*", "")))
         for j, d in enumerate(dirs):
@@ -155,6 +183,18 @@ def run_case(case, cnt=None, root=None):
         root = tempfile.mkdtemp(prefix="c10-", dir=os.getcwd())
     srnd = random.Random(case["style_seed"])
     try:
+        if case["kind"] == "pair":
+            # two spellings of one multi-file program given as texts
+            oa = asm.assemble([(os.path.join(root, n), tx) for n, tx in case["a"]], wall=120)
+            ob = asm.assemble([(os.path.join(root, n), tx) for n, tx in case["b"]], wall=120)
+            if "stall" in (oa.cls, ob.cls):
+                return (out, 0) if not own else out
+            cnt["variants_compared"] += 1
+            cnt["register_expression_pairs"] = cnt.get("register_expression_pairs", 0) + 1
+            if oa.cls != "ok" or meta.observable(oa) != meta.observable(ob):
+                out.append({"what": f"register spellings: 'rN' form gives {meta.describe(oa)}, '%expr' form gives {meta.describe(ob)} ({[e['id'] for e in ob.errors][:3]}); "
+                                    f"'%' files: {[tx for _n, tx in case['b']]}"[:1500], "case": case})
+            return (out, 1) if not own else out
         if case["kind"] == "gen":
             prog = apm.from_json(case["prog"])
             o0, t0 = meta.assemble_prog(prog, root)
